@@ -252,8 +252,36 @@ R2 = [
     Rule("R2.acc", r'\(?\s*\b(suv_new|suv3|target)\s*\)?\s*\.\s*components\s*\[([^\]]+)\]\s*\+=\s*([^;]+);', r'SQ_ACC(\1,\2,\3);'),
 ]
 
+CACHE = [
+    Rule("cache.orig", r'\blist_head\s+orig\s*=\s*list\s*;', 'struct list_head orig=*list;'),
+    Rule("cache.load", r'\blist_head\s+orig\s*=\s*list\.load\(\)\s*,\s*next\s*;', 'struct list_head orig=sq_load(list), next;'),
+    Rule("cache.cas", r'std::atomic_compare_exchange_weak\s*\(\s*&list\s*,\s*&orig\s*,\s*next\s*\)', 'sq_cas(list,&orig,next)'),
+    Rule("cache.listdot", r'\blist\.index\b', 'list->index'),
+    Rule("cache.auto", r'\bauto\s+next_ptr\s*=', 'struct record* next_ptr='),
+    Rule("cache.entries", r'(?<![\w.>])entries\b', 'self->entries'),
+    Rule("cache.store", r'\b(free_list|data_list)\.store\s*\(\s*\{([^}]*)\}\s*\)\s*;', r'sq_store(&self->\1,(struct list_head){\2});'),
+    Rule("cache.headinit", r'\b(free_list|data_list)\s*=\s*list_head\s*\{([^}]*)\}\s*;', r'self->\1=(struct list_head){\2};'),
+    Rule("cache.recordptr", r'(?<![\w>])(?<!struct )record\s*\*', 'struct record*'),
+    Rule("cache.pop", r'\bpop\s*\(\s*(free_list|data_list)\s*\)', r'cache_pop(self,&self->\1)'),
+    Rule("cache.push", r'\bpush\s*\(\s*(free_list|data_list)\s*,\s*entry\s*\)', r'cache_push(self,&self->\1,entry)'),
+    Rule("cache.Tempty", r'return\s*\(\s*T\s*\(\s*\)\s*\)\s*;', 'return T_empty();'),
+    Rule("cache.conv", r'return\s*\(\s*\*entry\s*\)\s*;', 'return entry->data;   /* record::operator T() */'),
+    Rule("cache.conv2", r'\bT\s+(\w+)\s*=\s*\*entry\s*;', r'T \1=entry->data;   /* record::operator T() */'),
+]
+
+ALLOC = [
+    Rule("alloc.cache.get", r'\bmem_cache_entry\s+cache_result\s*=\s*storage_cache\[dim\]\.get\(\)\s*;', 'mem_cache_entry cache_result=cache_get(dim);'),
+    Rule("alloc.cache.insert", r'storage_cache\[(\w+(?:->\w+)?)\]\.insert\s*\(\s*mem_cache_entry\s*\{([^}]*)\}\s*\)', r'cache_insert(\1,(mem_cache_entry){\2})'),
+    Rule("alloc.new", r'\bnew\s+double\s*\[\s*([^\]]+)\]', r'sq_new(\1)'),
+    Rule("alloc.delete", r'\bdelete\s*\[\s*\]\s*\(([^;]*)\)\s*;', r'sq_del(\1);'),
+    Rule("alloc.intptr", r'\(\s*intptr_t\s*\)\s*\(', 'sq_addr('),
+]
+
 RULESETS = {
     "common": COMMON,
+    "alloc": ALLOC,
+    "suv_members_only": [members_rule("suv", SUV_MEMBERS)],
+    "cache": CACHE,
     "r2": R2,
     "guards": GUARDS,
     "proxy_access": PROXY_ACCESS,
